@@ -283,6 +283,235 @@ def run_determinism(case, ob, site):
 
 
 # ------------------------------------------------------------------------------------------
+# build-time order: "building the same design twice ... yields byte-identical text". Every set() PyRTL creates WHILE THE DESIGN
+# IS BUILT (conditional's predicate sets, Block.logic / wirevector_set, ...) is ordered by ranks keyed on wire creation index;
+# two creation indices at a time swap places (symbolic ranks constrained to the transposition), everything else keeps creation
+# order. The design is rebuilt from scratch on every explored path and all four texts are emitted from it.
+
+class _BSetMeta(type):
+    def __instancecheck__(cls, inst):
+        return isinstance(inst, set)
+
+
+class BRanked(set, metaclass=_BSetMeta):
+    """stands in for the builtin `set` inside PyRTL's build-time modules"""
+    sym_rank = {}      # creation index -> SymInt
+    memo = {}
+    constraints = []
+
+    @classmethod
+    def setup(cls, i, j):
+        cls.memo = {}
+        ri, rj = SymInt(z3.BitVec('brank_i', 12), False), SymInt(z3.BitVec('brank_j', 12), False)
+        cls.sym_rank = {i: ri, j: rj}
+        # the two objects keep their places or swap them (ranks 2*idx are the slots, other objects sit at 2*idx too but are
+        # never equal to a chosen index)
+        cls.constraints = [z3.Or(z3.And(ri.t == 2 * i, rj.t == 2 * j), z3.And(ri.t == 2 * j, rj.t == 2 * i))]
+
+    @classmethod
+    def key(cls, o):
+        """(primary wire creation index, tie-break)"""
+        extra = ''
+        if type(o).__name__ == 'LogicNet':
+            w = o.dests[0] if o.dests else (o.args[0] if o.args else None)
+            extra = o.op
+        elif isinstance(o, tuple):
+            w = o[0]
+            extra = repr(o[1:])
+        else:
+            w = o
+        idx = getattr(w, '_vf_idx', None)
+        if idx is None:
+            idx = 100000 + (hash(repr(o)) % 1000)
+        return idx, extra
+
+    @classmethod
+    def less(cls, a, b):
+        (ia, ea), (ib, eb) = cls.key(a), cls.key(b)
+        if ia == ib:
+            return ea < eb
+        ra, rb = cls.sym_rank.get(ia, 2 * ia), cls.sym_rank.get(ib, 2 * ib)
+        if not sym.is_sym(ra) and not sym.is_sym(rb):
+            return ra < rb
+        k = (ia, ib)
+        if k not in cls.memo:
+            r = bool(ra < rb)
+            cls.memo[k] = r
+            cls.memo[(ib, ia)] = not r
+        return cls.memo[k]
+
+    def _ordered(self):
+        import functools
+        items = list(set.__iter__(self))
+        return sorted(items, key=functools.cmp_to_key(lambda a, b: -1 if BRanked.less(a, b) else (1 if BRanked.less(b, a) else 0)))
+
+    def __iter__(self):
+        return iter(self._ordered())
+
+    def pop(self):
+        x = self._ordered()[0]
+        set.remove(self, x)
+        return x
+
+    def copy(self):
+        return BRanked(set.__iter__(self))
+
+    def __or__(self, o):
+        return BRanked(set.__or__(set(set.__iter__(self)), set(o)))
+
+    def __sub__(self, o):
+        return BRanked(set.__sub__(set(set.__iter__(self)), set(o)))
+
+    def __and__(self, o):
+        return BRanked(set.__and__(set(set.__iter__(self)), set(o)))
+
+    def union(self, *o):
+        return BRanked(set.union(set(set.__iter__(self)), *o))
+
+    def difference(self, *o):
+        return BRanked(set.difference(set(set.__iter__(self)), *o))
+
+    def intersection(self, *o):
+        return BRanked(set.intersection(set(set.__iter__(self)), *o))
+
+
+BUILD_MODULES = ['core', 'wire', 'conditional', 'corecircuits', 'memory', 'helperfuncs', 'simulation', 'importexport']
+
+
+@contextlib.contextmanager
+def build_order_env():
+    import importlib
+    from pyrtl import wire as wiremod
+    mods = [importlib.import_module('pyrtl.' + m) for m in BUILD_MODULES]
+    counter = [0]
+    orig_init = wiremod.WireVector.__init__
+
+    def init(self, *a, **k):
+        counter[0] += 1
+        self._vf_idx = counter[0]
+        return orig_init(self, *a, **k)
+    wiremod.WireVector.__init__ = init
+    # a fresh process starts its name counters from zero: so does every build here
+    wiremod._reset_wire_indexers()
+    from pyrtl import memory as memmod
+    memmod._reset_memory_indexer()
+    for m in mods:
+        m.__dict__['set'] = BRanked
+    try:
+        yield counter
+    finally:
+        wiremod.WireVector.__init__ = orig_init
+        for m in mods:
+            m.__dict__.pop('set', None)
+
+
+def build_cond(d):
+    """designs whose construction goes through conditional_assignment with several predicate terms per assignment"""
+    k = d['kind']
+    a, b, c = pyrtl.Input(1, 'a'), pyrtl.Input(1, 'b'), pyrtl.Input(1, 'c')
+    x, y = pyrtl.Input(3, 'x'), pyrtl.Input(3, 'y')
+    if k == 'cond_chain':
+        r = pyrtl.Register(3, 'r')
+        o = pyrtl.Output(3, 'o')
+        w = pyrtl.WireVector(3, 'w')
+        with pyrtl.conditional_assignment:
+            with a:
+                r.next |= x
+            with b:
+                r.next |= y
+                w |= x
+            with c:
+                w |= y
+            with pyrtl.otherwise:
+                r.next |= (x ^ y)
+        o <<= r + w
+    elif k == 'cond_nested':
+        r = pyrtl.Register(3, 'r', reset_value=2)
+        o = pyrtl.Output(3, 'o')
+        with pyrtl.conditional_assignment:
+            with a:
+                with b:
+                    r.next |= x
+                with c:
+                    r.next |= y
+                with pyrtl.otherwise:
+                    o |= x
+            with pyrtl.otherwise:
+                with c:
+                    o |= y
+                    r.next |= (x & y)
+    elif k == 'cond_mem':
+        m = pyrtl.MemBlock(bitwidth=3, addrwidth=1, name='m', asynchronous=True)
+        o = pyrtl.Output(3, 'o')
+        with pyrtl.conditional_assignment:
+            with a:
+                m[b] |= x
+            with c:
+                with b:
+                    m[a] |= y
+                with pyrtl.otherwise:
+                    o |= m[c]
+        p = pyrtl.Output(3, 'p')
+        p <<= m[a]
+    return pyrtl.working_block()
+
+
+designs.register_family('COND20', build_cond)
+
+
+def all_texts(block):
+    tr = concrete_trace(block)
+    return tuple(emit(k, block, tr) for k in EMITTERS)
+
+
+def run_build_determinism(case, ob, site):
+    # number of wires the build creates (deterministic): one plain build
+    with build_order_env() as counter:
+        BRanked.sym_rank, BRanked.memo, BRanked.constraints = {}, {}, []
+        designs.build(case)
+        nw = counter[0]
+    pairs = list(itertools.combinations(range(1, nw + 1), 2))
+    if case.get('sample') and len(pairs) > case['sample']:
+        step = len(pairs) / float(case['sample'])
+        pairs = [pairs[int(k * step)] for k in range(case['sample'])]
+    pairs = pairs[case.get('chunk', 0)::4]
+    texts = {}
+    with build_order_env():     # the reference: plain creation order
+        BRanked.sym_rank, BRanked.memo, BRanked.constraints = {}, {}, []
+        texts[all_texts(designs.build(case))] = (0, 0)
+    npaths = 0
+    for (i, j) in pairs:
+        def body():
+            with build_order_env():
+                BRanked.memo = {}
+                blk = designs.build(case)
+                return all_texts(blk)
+        BRanked.setup(i, j)
+        paths = explore(body, assumptions=list(BRanked.constraints), max_paths=64)
+        npaths += len(paths)
+        for p in paths:
+            if p.exc is not None:
+                ob.fact('design-builds-and-exports-under-every-order', False, site + ':raises', detail=repr(p.exc))
+            else:
+                texts.setdefault(p.result, (i, j))
+    BRanked.sym_rank, BRanked.memo = {}, {}
+    ob.paths += npaths
+    ob.n += 1
+    if len(texts) <= 1:
+        ob.unsat += 1
+    else:
+        ts = sorted(texts)
+        ta, tb = '\n'.join(ts[0]), '\n'.join(ts[1])
+        diff = next((k for k, (x_, y_) in enumerate(zip(ta, tb)) if x_ != y_), min(len(ta), len(tb)))
+        ob.sat.append({'property': PROP, 'obligation': 'same-bytes-when-the-design-is-built-under-every-set-order',
+                       'site': site + ':bytes-differ', 'case': case, 'structural': True,
+                       'detail': {'distinct_texts': len(texts), 'first': ta[max(0, diff - 120):diff + 120],
+                                  'second': tb[max(0, diff - 120):diff + 120], 'swapped_creation_indices': list(texts[ts[1]])}})
+    ob.sample = {'obligation': 'four texts identical over %d explored build orders (%d creation-index pairs)' % (npaths, len(pairs)),
+                 'result': 'unsat' if len(texts) <= 1 else 'sat'}
+
+
+# ------------------------------------------------------------------------------------------
 
 def run_readonly(case, ob, site):
     call = case['call']
@@ -390,6 +619,10 @@ def cases(tier, seed):
             if e == 'firrtl' and d['kind'] in ('bad_names', 'mem'):
                 continue
             out.append(dict(d, k='determinism', emitter=e, sample=None if tier != 'quick' else 30))
+    for d in [{'fam': 'COND20', 'kind': 'cond_chain'}, {'fam': 'COND20', 'kind': 'cond_nested'}, {'fam': 'COND20', 'kind': 'cond_mem'},
+              {'fam': 'DET', 'kind': 'small'}, {'fam': 'DET', 'kind': 'mem'}, {'fam': 'DET', 'kind': 'bad_names'}]:
+        for ch in range(4):
+            out.append(dict(d, k='build', sample=120 if tier == 'quick' else None, chunk=ch))
     ro = designs.expr_cases(6 if tier == 'quick' else 40, seed + 51, n=6, maxw=4, nrom=0, ops=['+', '-', '&', '|', '^', '~', '<', 'x', 'c', 's', 'trunc', 'const']) + \
         [c for c in designs.seq_cases(widths=(3,)) if c['kind'] != 'rom_reg'] + designs.misc_cases()[:8] + [{'fam': 'DET', 'kind': 'small'},
                                                                                                        {'fam': 'DET', 'kind': 'func_rom'}, {'fam': 'DET', 'kind': 'list_rom'}]
@@ -407,11 +640,13 @@ def site_of(c):
         return 'C20:sort-keys'
     if c['k'] == 'determinism':
         return 'C20:determinism:%s:%s' % (c['emitter'], c['kind'])
+    if c['k'] == 'build':
+        return 'C20:build-determinism:%s' % c['kind']
     return 'C20:readonly:%s' % c['call']
 
 
 def run_case(case, ob, tier):
-    {'keys': run_keys, 'determinism': run_determinism, 'readonly': run_readonly}[case['k']](case, ob, site_of(case))
+    {'keys': run_keys, 'determinism': run_determinism, 'readonly': run_readonly, 'build': run_build_determinism}[case['k']](case, ob, site_of(case))
 
 
 def replay(cex):
@@ -420,7 +655,7 @@ def replay(cex):
     ob = Obligations(PROP, c, 30000)
     run_case(c, ob, 'quick')
     bad = [x['obligation'] for x in ob.sat]
-    if c['k'] == 'determinism' and bad:
+    if c['k'] in ('determinism', 'build') and bad:
         d = ob.sat[0].get('detail', {})
         return True, 'the same design exported under two iteration orders gives different text:\n--- A ---\n%s\n--- B ---\n%s' % (d.get('first'), d.get('second'))
     return cex['obligation'] in bad or (bool(bad) and not cex.get('structural')), 'failing on re-execution against the real code: %r' % bad[:6]
